@@ -99,8 +99,17 @@ CONFIGS = {
     "relc": ("g++", "-O2", "call"),
     "reld": ("g++", "-O2", "direct"),
     "fast": ("clang++-14", "-O2", "call"),
+    # the library as built with tracing support (GRAPHITE2_NTRACING not defined: gr_start_logging works)
+    "sant": ("clang++-14", "-O1 -g -fno-omit-frame-pointer -fsanitize=address,undefined -fno-sanitize-recover=undefined", "call"),
 }
 COMMON = "-std=c++14 -fno-rtti -fno-exceptions -DGRAPHITE2_STATIC -DGRAPHITE2_NTRACING -D%s -I{repo}/include -I{repo}/src" % GUARD
+
+
+def common_for(cfg):
+    c = COMMON.format(repo=REPO)
+    if cfg == "sant":
+        c = c.replace("-DGRAPHITE2_NTRACING", "-DGRV_TRACING")
+    return c
 
 
 def _tree_hash(paths, extra=""):
@@ -147,12 +156,12 @@ def _drop_stale(pattern, keep, age=3 * 3600):
             pass
 
 
-def lib_sources(vm):
+def lib_sources(vm, tracing=False):
     srcs = sorted(glob.glob(os.path.join(REPO, "src", "*.cpp")))
     out = []
     for s in srcs:
         b = os.path.basename(s)
-        if b in ("json.cpp",):
+        if b in ("json.cpp",) and not tracing:
             continue
         if b.endswith("_machine.cpp") and b != vm + "_machine.cpp":
             continue
@@ -168,10 +177,10 @@ def build_lib(cfg):
 def _build_lib(cfg):
     """Compile /repo/src (current working tree) with hooks on; returns (dir, [objects])."""
     cc, flags, vm = CONFIGS[cfg]
-    common = COMMON.format(repo=REPO)
+    common = common_for(cfg)
     key = _tree_hash([os.path.join(REPO, "src"), os.path.join(REPO, "include")], cfg + flags + common)
     d = os.path.join(BUILD, "lib", cfg + "-" + key)
-    srcs = lib_sources(vm)
+    srcs = lib_sources(vm, tracing=(cfg == "sant"))
     objs = [os.path.join(d, os.path.basename(s)[:-4] + ".o") for s in srcs]
     if os.path.exists(os.path.join(d, ".done")):
         return d, objs
@@ -202,7 +211,7 @@ def _build_harness(cfg, name="grv", sources=None, extra_flags=""):
     libdir, objs = _build_lib(cfg)
     if sources is None:
         sources = sorted(glob.glob(os.path.join(HARNESS, "*.cpp")))
-    common = COMMON.format(repo=REPO)
+    common = common_for(cfg)
     hkey = _tree_hash([HARNESS], cfg + os.path.basename(libdir) + extra_flags + name + " ".join(sources))
     d = os.path.join(BUILD, "bin")
     os.makedirs(d, exist_ok=True)
